@@ -46,6 +46,8 @@ def run_into(c, thorough=None):
     cfgs = ["MC_Area.cfg", "MC_Area_ideal.cfg"]
     if thorough:
         cfgs += ["MC_Area_glyph.cfg", "MC_Area_prot.cfg", "MC_Area_prot_ideal.cfg", "MC_Area_full.cfg", "MC_Area_3x3.cfg"]
+    if os.environ.get("AREA_NO_MC"):        # experiments on mutated engines: the laws of the model do not depend on the engine
+        cfgs = []
     mcs = [c.mc(SPEC, "MC_Area", cfg, workers=4) for cfg in cfgs]
     gen()
     t1 = time.time()
